@@ -37,10 +37,13 @@ def fmt_c(it, fmt, args):
         c = fmt[i]
         if c != '%':
             out.append(c); i += 1; continue
-        m = re.match(r'%([0-9.]*)(llu|lu|hu|u|d|c|s|g|o)', fmt[i:])
+        m = re.match(r'%([0-9.*]*)(llu|lu|hu|u|d|c|s|g|o)', fmt[i:])
         if not m:
             raise Unsupported('printf format %r' % fmt)
         flags, conv = m.group(1), m.group(2)
+        while '*' in flags:
+            if not isinstance(args[ai], int): raise Unsupported('printf * argument %r' % (args[ai],))
+            flags = flags.replace('*', str(args[ai]), 1); ai += 1
         a = args[ai]; ai += 1
         if conv in ('llu', 'lu', 'u', 'hu', 'd'):
             if not isinstance(a, int): raise Unsupported('printf of %r' % (a,))
@@ -123,7 +126,11 @@ def decode_data(text):
         for tokv in rest.split():
             mf = re.match(r'^([sd])_(\S+)$', tokv)
             if mf and mf.group(1) == ty:
-                for k in range(SZ[ty]): img.append(('f', 'float' if ty == 's' else 'double', float(mf.group(2)), k))
+                fv = float(mf.group(2))
+                if ty == 's':
+                    import struct
+                    fv = struct.unpack('<f', struct.pack('<f', fv))[0]      # QBE reads the text as a single-precision value
+                for k in range(SZ[ty]): img.append(('f', 'float' if ty == 's' else 'double', fv, k))
                 continue
             if not re.match(r'^\d+$', tokv):
                 raise ValueError('bad data value %r' % tokv)
@@ -222,6 +229,13 @@ def data_cases(tier):
             cases.append(('addr:+%s@%d' % (add, off), 24, 8, [(off, off + 8, 0, 0, ('addr', 'sym', add))] + ([(16, 20, 0, 0, ('const', 'int', 7))] if off == 0 else [])))
     # floating constants
     cases.append(('float', 16, 8, [(0, 4, 0, 0, ('fconst', 'float', 1.5)), (8, 16, 0, 0, ('fconst', 'double', -0.25))]))
+    # constants that need all 17 (double) / 9 (float) significant digits to survive the trip through the IL text
+    import struct
+    f32 = lambda x: struct.unpack('<f', struct.pack('<f', x))[0]
+    for k, v in enumerate((0.1 + 0.2, 4.35 * 100, 1.7976931348623157e308, 1.0 / 3, 2.2250738585072014e-308, 5e-324, 123456789.12345678, -9007199254740993.0)):
+        cases.append(('double#%d' % k, 8, 8, [(0, 8, 0, 0, ('fconst', 'double', v))]))
+    for k, v in enumerate((f32(0.1), f32(16777216.0 / 3), f32(3.4028234663852886e38), f32(1.17549435e-38), f32(1e-45))):
+        cases.append(('float#%d' % k, 4, 4, [(0, 4, 0, 0, ('fconst', 'float', v))]))
     return cases
 
 
@@ -779,7 +793,7 @@ def auto_cases(tier):
     """(key, size, align, member bit ranges, inits) - inits as in data_cases, plus ('sv', label) whole-aggregate copies"""
     cases = []
     for key, size, align, inits in data_cases(tier):
-        if key.startswith(('addr', 'float')): continue
+        if key.startswith(('addr', 'float', 'double')): continue
         if key.startswith('bits:'):
             seq = key[5:].split('|')[0].split(',')
             members = []
